@@ -28,7 +28,9 @@ def gen_bounds(rng, pattern):
   lo, hi = [], []
   for p in pattern:
     a = Fraction(rng.randint(-16, 16), 4)
-    r = Fraction(rng.randint(1, 24), 8)
+    # an empty input range (input_min == input_max) is accepted on every input that takes no part in a range
+    # dominance: the layer clips it to a point, the constraint must leave its weight finite (F-C06-a)
+    r = Fraction(rng.randint(1, 24), 8) if rng.random() < 0.85 else Fraction(0)
     lo.append(a if p in ("lo", "both") else None)
     hi.append(a + r if p == "both" else (a if p == "hi" else None))
   return lo, hi
@@ -84,7 +86,7 @@ def gen_case(rng, pattern, constrained):
       md = rand_dag_pairs(rng, inc, 3)
     used = {i for p in md for i in p}
     for sign in (1, -1):
-      cand = [i for i in range(n) if monos[i] == sign and i not in used and pattern[i] == "both"]
+      cand = [i for i in range(n) if monos[i] == sign and i not in used and pattern[i] == "both" and lo[i] < hi[i]]
       if len(cand) >= 2 and rng.random() < 0.7:
         rd += rand_dag_pairs(rng, cand, 3)
     order = rng.choice([None, 1, 1, 2, "inf"])
@@ -177,6 +179,8 @@ def evaluate(case):
     kf = np.array([[float(v) for v in row] for row in case["kernel"]], dtype=np.float64)
     if cfg["constrained"] and layer.kernel.constraint is not None and not case.get("projected"):
       kf = layer.kernel.constraint(tf.constant(kf)).numpy()
+      if not np.all(np.isfinite(kf)):
+        return None, "nonfinite kernel returned by the layer's constraint: %r" % kf.tolist(), []
       case["kernel"] = [[Fraction(float(v)) for v in row] for row in kf]
       case["projected"] = True
     layer.kernel.assign(kf)
@@ -212,7 +216,7 @@ def check_case(ctx, case, out, err, replies):
   key = dict(layer="linear", units=min(units, 2), bias=bool(cfg["use_bias"]),
              bounded=any(p != "none" for p in cfg["pattern"]), kind=case["kind"])
   if err is not None:
-    ctx.fail("raises", key, case, err)
+    ctx.fail("finite" if err.startswith("nonfinite") else "raises", key, case, err)
     ctx.case(sig=(cls, "err"), sample=case)
     return
   if out.shape != (len(X), units):
